@@ -37,6 +37,7 @@ STREAM = {
     "C04": ("c04", ["--sweep", "--cases", 400, "--cost", 500000], ["--sweep", "--cases", 3000, "--cost", 10000000, "--bigshare", 20]),
     "C08": ("c08", ["--counts", "--cases", 700, "--cost", 1000000], ["--counts", "--cases", 6000, "--cost", 20000000, "--bigshare", 20]),
     "C09": ("c09", ["--cases", 900, "--cost", 1500000], ["--cases", 9000, "--cost", 30000000, "--bigshare", 40]),
+    "C14": ("c14", ["--cases", 300, "--cost", 300000], ["--cases", 3000, "--cost", 5000000]),
     "C13": ("c13", ["--cases", 400, "--cost", 400000], ["--cases", 3000, "--cost", 6000000, "--bigshare", 10]),
 }
 
@@ -47,13 +48,13 @@ def stream_key(prop, case, msgs):
     return f"{prop} {' / '.join(norm)} [family={case.get('family')} bps={case.get('bps')} mode={case.get('mode')} cfg={case.get('cfg')}]"
 
 
-def check_stream(prop, tier, seed, only=None, outdir=None):
+def check_stream(prop, tier, seed, only=None, outdir=None, props=None, accept=None):
     res = Result()
     profile, qa, ta = STREAM[prop]
     out = outdir or os.path.join(vlib.WORK, f"{prop}-{tier}")
     import shutil
     shutil.rmtree(out, ignore_errors=True)
-    args = ["stream", "--profile", profile, "--props", prop, "--tier", tier, "--seed", seed,
+    args = ["stream", "--profile", profile, "--props", props or prop, "--tier", tier, "--seed", seed,
             "--out", out, "--shards", vlib.JVMS * (3 if tier == "thorough" else 1)] + (ta if tier == "thorough" else qa)
     if only:
         args += ["--only", only]
@@ -69,7 +70,7 @@ def check_stream(prop, tier, seed, only=None, outdir=None):
         if v == "skip":
             skipped += 1
             continue
-        mine = [m for m in msgs if m.startswith(prop + ":") or m.startswith("ALL:")]
+        mine = [m for m in msgs if m.startswith(tuple(x + ":" for x in (accept or [prop]))) or m.startswith("ALL:")]
         if not mine:
             accepted += 1
             continue
@@ -358,11 +359,107 @@ def extract_seq(files, sid):
     return []
 
 
+# --------------------------------------------------------------------------- C12 (failing sinks)
+def check_faulty(prop, tier, seed):
+    import re, shutil
+    res = Result()
+    res.level = "fault_enumeration"
+    out = os.path.join(vlib.WORK, f"{prop}-{tier}")
+    shutil.rmtree(out, ignore_errors=True)
+    summ = vlib.run_fv(["faulty", "--tier", tier, "--seed", seed, "--out", out, "--shards", vlib.JVMS])
+    verdicts, states, trans, _ = vlib.run_trace_shards("TraceFault.tla", "TraceFault.cfg", summ["files"], tagp=prop, timeout=3000)
+    if len(verdicts) != summ["components"]:
+        raise ToolError(f"{summ['components']} components driven but {len(verdicts)} verdicts")
+    ok = 0
+    seen = set()
+    for cid, (v, msgs) in sorted(verdicts.items()):
+        if v == "pass":
+            ok += 1
+            continue
+        first = sorted(msgs)[0]
+        kindc = "stream" if "whole stream" in first else "frame" if re.search(r"frame \d+:", first) else "part"
+        key = f"{prop} {kindc}: " + re.sub(r"\d+", "#", re.sub(r"while writing .*?: outcome", "outcome", first))
+        if key in seen:
+            continue
+        seen.add(key)
+        res.failures.append(dict(key=key, what=f"component {cid}: {first} ({len(msgs)} failing k)", name=cid,
+                                 replay=dict(property=prop, kind="faulty", seed=seed, tier=tier, component=cid, what=msgs[:20])))
+    res.coverage = dict(evaluations=summ["tries"], distinct_nontrivial=summ["tries"], components=summ["components"],
+                        component_classes=summ["classes"], outcomes=summ["outcomes"],
+                        states=states, transitions=trans, traces_validated_against_impl=ok,
+                        rule="for every component (whole streams with >= 3 frames and every subframe type, single frames incl. frames with a "
+                             "precomputed bitstream, headers, subframes, STREAMINFO) the user sink fails on its k-th operation for every k in "
+                             "0..=NOps+1 (strided above 400 operations in the quick tier); every (component, k) pair is a distinct fault position; "
+                             "TraceFault.tla judges outcome and prefix",
+                        samples=summ["samples"], exhaustive=(tier == "thorough"))
+    res.assumptions = ["the fault-free bit string received by the same kind of sink is the reference (validated against the byte sink by C11)"]
+    return res
+
+
+# --------------------------------------------------------------------------- C14 (fill equivalence)
+def check_fill(prop, tier, seed):
+    import shutil
+    res = Result()
+    out = os.path.join(vlib.WORK, f"{prop}-{tier}-fill")
+    shutil.rmtree(out, ignore_errors=True)
+    summ = vlib.run_fv(["fill", "--tier", tier, "--seed", seed, "--out", out, "--shards", vlib.JVMS])
+    verdicts, states, trans, _ = vlib.run_trace_shards("TraceFill.tla", "TraceFill.cfg", summ["files"], tagp=prop, timeout=3000)
+    if len(verdicts) != summ["cases"]:
+        raise ToolError(f"{summ['cases']} fill cases driven but {len(verdicts)} verdicts")
+    ok = 0
+    import re
+    seen = set()
+    for cid, (v, msgs) in sorted(verdicts.items()):
+        if v == "pass":
+            ok += 1
+            continue
+        first = sorted(msgs)[0]
+        key = f"{prop} " + re.sub(r"\d+", "#", first)
+        if key in seen:
+            continue
+        seen.add(key)
+        res.failures.append(dict(key=key, what=f"{cid}: {first}", name=cid,
+                                 replay=dict(property=prop, kind="fill", seed=seed, tier=tier, case=cid, what=msgs[:10]),
+                                 trace_lines=extract_between(summ["files"], "fillcase", cid)))
+    # whole streams through both source kinds (single-, multi-thread, frame level)
+    st = check_stream(prop, tier, seed, props="C14,C01,C03", accept=["C14", "C01", "C03"])
+    res.failures += st.failures
+    res.coverage = dict(states=states + st.coverage["states"], transitions=trans + st.coverage["transitions"],
+                        traces_validated_against_impl=ok + st.coverage["traces_validated_against_impl"],
+                        evaluations=summ["fills"] + st.coverage["evaluations"], fill_cases=summ["cases"], fills=summ["fills"],
+                        distinct_nontrivial=summ["classes"] + st.coverage["distinct_nontrivial"],
+                        twin_streams=st.coverage["evaluations"],
+                        rule="every channel count 1..8 x (bytes per sample, width) in {(1,8),(2,12),(2,16),(3,20),(3,24),(4,32)} x capacity "
+                             "{32,33,47} x fill length (all 0..=capacity in the thorough tier, every 4th plus edges in the quick tier): "
+                             "full block, shorter block, empty block, short block, through fill_interleaved and fill_le_bytes on separate "
+                             "buffers/contexts; TLC decodes a verbatim frame of each buffer and recomputes the MD5; plus whole streams "
+                             "encoded with both deliveries (bytes must be identical, decoded by TLC). distinct = (ch, B, width, capacity, "
+                             "length class) classes + stream classes",
+                        samples=summ["samples"] + st.coverage["samples"][:1], exhaustive=(tier == "thorough"))
+    res.assumptions = st.assumptions + ["Fill.tla's FromLE/ToLE is the intended meaning of packed little-endian delivery"]
+    return res
+
+
+def extract_between(files, start_ev, cid):
+    for f in files:
+        keep, on = [], False
+        for line in open(f):
+            if f'"ev":"{start_ev}"' in line:
+                on = f'"id":"{cid}"' in line
+            if on:
+                keep.append(line)
+                if '"ev":"fin"' in line:
+                    return keep
+    return []
+
+
 # --------------------------------------------------------------------------- registry
 CHECKS = {}
 for _p in STREAM:
     CHECKS[_p] = check_stream
+CHECKS["C14"] = check_fill
 CHECKS["C11"] = check_sink
+CHECKS["C12"] = check_faulty
 CHECKS["C05"] = check_par
 CHECKS["C06"] = check_par
 
@@ -374,6 +471,9 @@ def replay(prop, path):
         # re-encode the same case with the current working tree and validate it again
         r = check_stream(prop, payload.get("tier", "quick"), payload["seed"], only=payload["case"],
                          outdir=os.path.join(vlib.WORK, f"{prop}-replay"))
+        return r
+    if kind == "faulty":
+        r = check_faulty(prop, payload.get("tier", "quick"), payload["seed"])
         return r
     if kind == "sink":
         r = Result()
